@@ -175,12 +175,14 @@ CHECKS["C38"] = dict(
             dict(spec="MCMulticast.tla", cfg="MCMulticastFlood3.cfg", workers=8, timeout=1200, thorough_only=True),
             dict(spec="MCMulticast.tla", cfg="MCMulticastFlood4.cfg", workers=8, timeout=1500, thorough_only=True)],
     gen=dict(
-        quick=[dict(mode="edges", spec=_MG, cfg="MulticastGenMemberEdges.cfg", depth=3, max=120, name="member-edges"),
+        quick=[dict(mode="edges", spec=_MG, cfg="MulticastGenMemberEdges1.cfg", depth=4, max=350, name="member-edges-1group"),
+               dict(mode="edges", spec=_MG, cfg="MulticastGenMemberEdges.cfg", depth=3, max=60, name="member-edges"),
                dict(mode="sim", spec=_MG, cfg="MulticastGenMemberSim.cfg", depth=12, num=6, max=40, name="member-walks"),
                dict(mode="sim", spec=_MG, cfg="MulticastGenFill.cfg", depth=8, num=4, max=25, salt=1, name="member-fill"),
                dict(mode="edges", spec=_MG, cfg="MulticastGenFloodEdges.cfg", depth=20, max=80, name="flood-edges"),
                dict(mode="sim", spec=_MG, cfg="MulticastGenFloodSim.cfg", depth=40, num=60, max=60, dedup=True, salt=2, name="flood-walks")],
-        thorough=[dict(mode="edges", spec=_MG, cfg="MulticastGenMemberEdges.cfg", depth=3, max=1200, name="member-edges", timeout=1200),
+        thorough=[dict(mode="edges", spec=_MG, cfg="MulticastGenMemberEdges1.cfg", depth=8, name="member-edges-1group", timeout=1200),
+                  dict(mode="edges", spec=_MG, cfg="MulticastGenMemberEdges.cfg", depth=3, max=500, name="member-edges", timeout=1200),
                   dict(mode="sim", spec=_MG, cfg="MulticastGenMemberSim.cfg", depth=20, num=20, max=400, name="member-walks"),
                   dict(mode="sim", spec=_MG, cfg="MulticastGenFill.cfg", depth=12, num=15, max=150, salt=1, name="member-fill"),
                   dict(mode="edges", spec=_MG, cfg="MulticastGenFloodEdges.cfg", depth=20, max=700, name="flood-edges", timeout=1200),
@@ -190,7 +192,7 @@ CHECKS["C38"] = dict(
     corrupt=_c38_corrupt,
     nontrivial=lambda s: (s.get("par", {}).get("kind") == "member" and sum(1 for o in s["ops"] if o["op"] in ("notify", "handshake", "add", "remove", "disconnect", "fill")) >= 2)
                          or (s.get("par", {}).get("kind") == "flood" and any(o["op"] == "deliver" for o in s["ops"])),
-    rule="membership: TLC histories of connect/disconnect/notify/handshake(in,out)/add/remove/prune/fill (edges over 2 peers x 2 groups, "
+    rule="membership: TLC histories of connect/disconnect/notify/handshake(in,out)/add/remove/prune/fill (every (state, step) edge of 2 peers x 1 group (thorough: complete), edges over 2 peers x 2 groups, "
          "walks over 3 peers x 2 groups, fills around the threshold 20); flooding: TLC behaviours (overlay, joined set, originations, "
          "delivery order, losses, window expiries) ending with an empty network; distinct = distinct (parameters, step sequence); "
          "non-trivial = two membership-changing steps, resp. at least one delivery",
